@@ -96,6 +96,12 @@ def run_impl(prog):
             ok = None
             problems.append(('call-raises-other', '%r raised %s: %s' % (o, type(e).__name__, str(e)[:80])))
         trace.append((ok, [IDX[n] for n in d.dag.nodes], [(IDX[u], IDX[v]) for u, v in d.dag.edges]))
+        if len(prog) > 1 and len(trace) == (len(prog) + 1) // 2 and len(prog) % 2 == 0:
+            # an intermediate listing, asked for before the diagram is complete: the final listing is that of the FINAL diagram
+            try:
+                d.calculate_adjustment_sets()
+            except Exception:   # noqa  (exposure / outcome may not be in the diagram yet)
+                pass
     res = {'trace': trace, 'problems': problems, 'integer_labels': LABELS[0] == 8}
     try:
         d.calculate_adjustment_sets()
